@@ -46,7 +46,7 @@ theorem WN_encodeDoc (root : SerRoot) (s : Sch) (v : Val) (hr : root.tagsGood = 
     simp only [SerRoot.tagsGood] at hr
     refine ⟨?_, by simp [encodeDoc, headNotText, Ev.isTextB]⟩
     simp only [encodeDoc, WN]
-    refine ⟨hr, (goodRest_nsAttr ns).append (goodRest_encAttrs s v hs), ?_⟩
+    refine ⟨hr, goodRest_ns_encAttrs ns s v hs, ?_⟩
     exact WN_encode s v hs [tag] (by simp) [.stop tag] (WN_stop [] tag [] hr hnil) (by simp [headNotText, Ev.isTextB])
   | nested o i ns =>
     simp only [SerRoot.tagsGood, Bool.and_eq_true] at hr
